@@ -282,6 +282,48 @@ def shrink_caches(maxsize):
     return len(caches)
 
 
+def record_cache_fills(log, ctx, limit=200000):
+    """Put a recorder under every discovered module-level lru_cache: each
+    value that is computed -- and so goes into the table -- is logged as
+    (cache name, args, kwargs, value, index of the calendar-mode argument or
+    None, context) -- a plain append, capped, so that the cost stays
+    negligible even when a tiny table makes every call a miss.  The table itself stays a real lru_cache of
+    the same size."""
+    import functools
+    import inspect
+    n = 0
+    for key, (owner, attr) in sorted(discover_caches().items()):
+        if isinstance(owner, type):
+            continue        # per-instance method caches: not keyed by mode
+        cache = getattr(owner, attr)
+        fn = cache.__wrapped__
+        if getattr(fn, "_isosim_recorder", False):
+            continue
+        try:
+            maxsize = cache.cache_info().maxsize
+        except Exception:
+            maxsize = 100000
+        try:
+            names = list(inspect.signature(fn).parameters)
+            mode_at = names.index("_") if "_" in names else None
+        except (TypeError, ValueError):
+            mode_at = None
+
+        def make(fn, key, mode_at):
+            @functools.wraps(fn)
+            def recorder(*args, **kwargs):
+                value = fn(*args, **kwargs)
+                if len(log) < limit:
+                    log.append((key, args, kwargs, value, mode_at, ctx[0]))
+                return value
+            recorder._isosim_recorder = True
+            return recorder
+        setattr(owner, attr, lru_cache(maxsize=maxsize)(make(fn, key,
+                                                             mode_at)))
+        n += 1
+    return n
+
+
 def cache_stats():
     out = {}
     for key, (owner, attr) in discover_caches().items():
